@@ -139,7 +139,11 @@ def _chunk_worker(payload):
     try:
         for idx in idxs:
             try:
+                from . import seams
+                sid = seams.install_sim_id(run_seed(prop, tier, root, idx))
                 r = fn(prop, tier, root, idx, extra)
+                if sid.reused and isinstance(r.get("counters"), dict):
+                    r["counters"]["fault.address_reuse"] = sid.reused
                 r["chunk"] = [idxs[0], idx]
                 out.append(r)
                 if "violation" in r:
